@@ -53,3 +53,14 @@ package base
 //@   ensures  record._refCount == old(record._refCount) - 1
 //@   ensures  old(record._refCount) > 1 ==> unchanged(record.RawLength, record.Timestamp, record._backbuf)
 //@   loop 1: invariant -1 <= rangeindex && rangeindex < len(record.Fields) && forall j int :: 0 <= j && j <= rangeindex ==> len(record.Fields[j]) == 0
+
+// ---- LogRewriter interface contract (C10) -------------------------------------------------------------------------
+// rwmax(rw, value, record): the upper bound MaxFieldLength announces; WriteFieldBody writes at most that many bytes at
+// the start of the buffer it is given and returns how many it wrote.
+//@ pure func rwmax(rw LogRewriter, value string, record *LogRecord) int
+//@ extern func (rw LogRewriter) MaxFieldLength(value string, record *LogRecord) int
+//@   ensures result == rwmax(rw, value, record) && result >= 0
+//@ extern func (rw LogRewriter) WriteFieldBody(value string, record *LogRecord, buffer []byte) int
+//@   requires len(buffer) >= rwmax(rw, value, record)
+//@   modifies buffer[: rwmax(rw, value, record)]
+//@   ensures  0 <= result && result <= rwmax(rw, value, record)
